@@ -1,6 +1,7 @@
 import WcModel.Driver.Parse
 import WcModel.Driver.Spec
 import WcModel.Driver.Tidy
+import WcModel.Driver.TidyPath
 import WcModel.Driver.Lists
 import WcModel.Driver.Glob
 import WcModel.Driver.WcWalk
@@ -18,6 +19,7 @@ def dispatch (cmd : String) (args : List String) : Option String :=
   | "segstarts" => Driver.handleSegStarts args
   | "spec" => Driver.handleSpec args
   | "tidy" => Driver.handleTidy args
+  | "tidypath" => Driver.handleTidyPath args
   | "pspec" => Driver.handlePSpec args
   | "cert" => Driver.handleCert args
   | "caps" => Driver.handleCaps args
